@@ -132,12 +132,15 @@ def _taken_from_worklist(f, v: ast.AST, item: str) -> bool:
     """`item = work.pop()` with `work` a local list that only ever holds parsed objects: it starts as a display of the
     function's parameters and all that is ever added to it are members of an item taken from it (`work.extend(reversed(item))`,
     `work.append(item[i])`) — the iterative spelling of a loop over a batch and its members."""
-    if not (isinstance(v, ast.Call) and isinstance(v.func, ast.Attribute) and v.func.attr == "pop" and isinstance(v.func.value, ast.Name) and not v.keywords and all(isinstance(a, ast.Constant) and isinstance(a.value, int) for a in v.args)):
+    if not (isinstance(v, ast.Call) and isinstance(v.func, ast.Attribute) and v.func.attr in ("pop", "popleft") and isinstance(v.func.value, ast.Name) and not v.keywords and all(isinstance(a, ast.Constant) and isinstance(a.value, int) for a in v.args)):
         return False
     w = v.func.value.id
     params = set(f.params())
     binds = [s for s in walk_local(f.node) if (isinstance(s, ast.Assign) and any(isinstance(t, ast.Name) and t.id == w for t in s.targets)) or (isinstance(s, ast.AnnAssign) and isinstance(s.target, ast.Name) and s.target.id == w)]
-    if len(binds) != 1 or not isinstance(binds[0].value, ast.List) or not all(isinstance(e, ast.Name) and e.id in params for e in binds[0].value.elts):
+    init = binds[0].value if len(binds) == 1 else None
+    if isinstance(init, ast.Call) and ast.unparse(init.func) in ("deque", "collections.deque", "list") and len(init.args) == 1 and not init.keywords:
+        init = init.args[0]
+    if not isinstance(init, ast.List) or not all(isinstance(e, ast.Name) and e.id in params for e in init.elts):
         return False
 
     def strip(e):
@@ -147,9 +150,9 @@ def _taken_from_worklist(f, v: ast.AST, item: str) -> bool:
 
     for c in walk_local(f.node):
         if isinstance(c, ast.Call) and isinstance(c.func, ast.Attribute) and isinstance(c.func.value, ast.Name) and c.func.value.id == w:
-            if c.func.attr == "pop":
+            if c.func.attr in ("pop", "popleft"):
                 continue
-            if c.func.attr in ("extend", "append") and len(c.args) == 1 and not c.keywords:
+            if c.func.attr in ("extend", "append", "extendleft", "appendleft") and len(c.args) == 1 and not c.keywords:
                 e = strip(c.args[0])
                 if isinstance(e, ast.Subscript):
                     e = e.value
@@ -163,6 +166,36 @@ def _taken_from_worklist(f, v: ast.AST, item: str) -> bool:
         if isinstance(n, ast.Subscript) and isinstance(n.value, ast.Name) and n.value.id == w and not isinstance(n.ctx, ast.Load):
             return False
     return True
+
+
+def worklist_order_problems(f) -> list:
+    """[(node, why)]: a work list that takes items from one end and puts the members of an array back so that they come
+    out in reverse — `pop()` with `extend(item)`, `popleft()`/`pop(0)` with `extendleft(item)` (extendleft inserts one by
+    one, so the last member ends up first) — where the other pairing, or `reversed(item)`, keeps the order."""
+    out = []
+    takes = {}
+    for c in walk_local(f.node):
+        if isinstance(c, ast.Call) and isinstance(c.func, ast.Attribute) and isinstance(c.func.value, ast.Name) and c.func.attr in ("pop", "popleft") and not c.keywords:
+            end = "left" if c.func.attr == "popleft" or (c.args and isinstance(c.args[0], ast.Constant) and c.args[0].value == 0) else "right"
+            takes.setdefault(c.func.value.id, set()).add(end)
+    for c in walk_local(f.node):
+        if isinstance(c, ast.Call) and isinstance(c.func, ast.Attribute) and isinstance(c.func.value, ast.Name) and c.func.value.id in takes and c.func.attr in ("extend", "extendleft") and len(c.args) == 1:
+            a = c.args[0]
+            rev = isinstance(a, ast.Call) and isinstance(a.func, ast.Name) and a.func.id == "reversed"
+            if isinstance(a, ast.Subscript) and isinstance(a.slice, ast.Slice) and isinstance(a.slice.step, ast.UnaryOp):
+                rev = True  # item[::-1]
+            ends = takes[c.func.value.id]
+            if len(ends) != 1:
+                continue
+            end = next(iter(ends))
+            # front of the line after the insertion: extendleft(x) → x reversed at the left; extend(x) → x in order at the right
+            if c.func.attr == "extendleft":
+                out_order_ok = (end == "left" and rev) or (end == "right" and not rev)
+            else:
+                out_order_ok = (end == "right" and rev) or (end == "left" and not rev)
+            if not out_order_ok:
+                out.append((c, f"items are taken from the {end} end and `{ast.unparse(c)[:50]}` puts the members of an array back so that the last one comes out first"))
+    return out
 
 
 def _check_main(P: Project, R: Report) -> None:
@@ -230,6 +263,10 @@ def _check_main(P: Project, R: Report) -> None:
                     R.ob("R1", f"{cname}:{f.qual}: no member of the inbound object is rewritten", False, f"{m.rel}:{n.lineno}", f"`{ast.unparse(n)[:70]}` changes the message between the JSON decoder and the message constructor")
             R.ob("R1", f"{cname}:{f.qual}: inbound object reaches the constructor untouched", True, f"{m.rel}:{f.node.lineno}", "no assignment/deletion/mutation of a reaching name")
         R.need(sites >= 1, f"anchor: carrier {cname} no longer constructs messages from parsed JSON")
+        for f in P.funcs_in(mod):
+            for node_, why_ in worklist_order_problems(f):
+                R.ob("R1", f"{cname}:{f.qual}: the members of an array body are routed in the order the server wrote them", False, f"{m.rel}:{node_.lineno}",
+                     f"{why_}: `[n1, n2, response]` reaches the read stream as response, n2, n1 — the relative order of notifications and responses differs from what the other carriers deliver for the same server output")
         # callers hand the router a parsed body, not a rewritten one
         for f in P.funcs_in(mod):
             for c in walk_local(f.node):
